@@ -72,6 +72,12 @@ Definition p_elem (o : str) (i : nat) : path := s "outputs/" ++ o ++ s "/__" ++ 
 Definition p_single (o : str) : path := s "outputs/" ++ o ++ s ".cloudpickle".
 Definition p_dict (o : str) : path := s "outputs/" ++ o ++ s "/dict_array.cloudpickle".
 Definition p_tmp (p : path) : path := s "tmp:" ++ p.
+(* temporary files are recognised by their name *)
+Definition is_tmp (p : path) : bool :=
+  match p with
+  | "t"%char :: "m"%char :: "p"%char :: ":"%char :: _ => true
+  | _ => false
+  end.
 
 (* ---------------------------------------------------------------- writing *)
 (* a state of the emission: the file system so far and the events so far *)
@@ -151,19 +157,22 @@ Definition single_outputs (c : ctx) : list str :=
   flat_map (fun f => if is_mapped f then [] else fouts f) (x_p c).
 
 (* RunInfo.init_store: FileArray(...) creates its folder; DictArray(...) loads what was persisted *)
+Definition init_step (v : variant) (st : storage) (acc : result (em * list (str * estore))) (on : str * nat)
+  : result (em * list (str * estore)) :=
+  do xa <- acc;
+  let '(y, arrs) := xa in
+  match st with
+  | FileSt =>
+      let y' := mkdir_p y [p_root; p_outputs; p_outdir (fst on)] in
+      Ok (y', arrs ++ [(fst on, map (fun i => cell_of (fst y') (p_elem (fst on) i)) (seq 0 (snd on)))])
+  | DictSt =>
+      do cells <- load_dict v (fst y) (fst on) (snd on);
+      Ok (y, arrs ++ [(fst on, cells)])
+  end.
+
 Definition init_store (v : variant) (st : storage) (c : ctx) (x : em) : result (em * rstore) :=
   do mo <- mapped_outputs c;
-  do r <- fold_left (fun acc on =>
-                       do xa <- acc;
-                       let '(y, arrs) := xa in
-                       match st with
-                       | FileSt =>
-                           let y' := mkdir_p y [p_root; p_outputs; p_outdir (fst on)] in
-                           Ok (y', arrs ++ [(fst on, map (fun i => cell_of (fst y') (p_elem (fst on) i)) (seq 0 (snd on)))])
-                       | DictSt =>
-                           do cells <- load_dict v (fst y) (fst on) (snd on);
-                           Ok (y, arrs ++ [(fst on, cells)])
-                       end) mo (Ok (x, []));
+  do r <- fold_left (init_step v st) mo (Ok (x, []));
   let '(y, arrs) := r in
   Ok (y, {| st_arr := arrs;
             st_val := flat_map (fun o => match cell_of (fst y) (p_single o) with
